@@ -220,6 +220,63 @@ theorem row_eq_map_rowFn (vars : List Label) (hnd : vars.Nodup) (s : List Rat) (
       calc t = r.map (rowFn r t) := ih hnd'.2 t hl
         _ = r.map (rowFn (w :: r) (a :: t)) := List.map_congr_left hrow
 
+/-! ## rows as total assignments: extension by `1` outside the response's variables (SPIN) -/
+
+/-- the row extended by `1` outside the response's variables -/
+def rowFn1 (vars : List Label) (s : List Rat) : Label → Rat :=
+  fun v => match indexOf? v vars with
+    | some i => s.getD i 1
+    | none => 1
+
+theorem indexOf?_lt (v : Label) (vars : List Label) (i : Nat) (h : indexOf? v vars = some i) : i < vars.length := by
+  induction vars generalizing i with
+  | nil => simp [indexOf?] at h
+  | cons w r ih =>
+    unfold indexOf? at h
+    split at h
+    · simp only [Option.some.injEq] at h; subst h; simp
+    · cases hr : indexOf? v r with
+      | none => rw [hr] at h; simp at h
+      | some j =>
+        rw [hr] at h
+        simp only [Option.map_some, Option.some.injEq] at h
+        subst h
+        have := ih j hr
+        simp only [List.length_cons]; omega
+
+theorem rowFn1_eq_rowFn (vars : List Label) (s : List Rat) (hl : s.length = vars.length) (v : Label) (hv : v ∈ vars) :
+    rowFn1 vars s v = rowFn vars s v := by
+  unfold rowFn1 rowFn
+  cases h : indexOf? v vars with
+  | none => exact absurd hv ((indexOf?_eq_none_iff v vars).1 h)
+  | some i =>
+    have hi := indexOf?_lt v vars i h
+    simp only [List.getD_eq_getElem?_getD]
+    rw [List.getElem?_eq_getElem (by omega)]
+    rfl
+
+theorem rowFn1_spin (vars : List Label) (s : List Rat) (hs : ∀ a ∈ s, a ∈ [(-1 : Rat), 1]) (l : Label) :
+    rowFn1 vars s l ∈ [(-1 : Rat), 1] := by
+  unfold rowFn1
+  cases indexOf? l vars with
+  | none => simp
+  | some i =>
+    simp only [List.getD_eq_getElem?_getD]
+    cases hi : s[i]? with
+    | none => simp
+    | some a => simpa using hs a (List.mem_of_getElem? hi)
+
+theorem penaltySatisfied_congr (red : List (Pair × Label)) (x y : Label → Rat)
+    (h : ∀ c ∈ red, x c.1.1 = y c.1.1 ∧ x c.1.2 = y c.1.2 ∧ x c.2 = y c.2) :
+    penaltySatisfied red x = penaltySatisfied red y := by
+  unfold penaltySatisfied
+  induction red with
+  | nil => rfl
+  | cons c r ih =>
+    simp only [List.all_cons]
+    obtain ⟨h1, h2, h3⟩ := h c List.mem_cons_self
+    rw [h1, h2, h3, ih (fun c' hc' => h c' (List.mem_cons_of_mem _ hc'))]
+
 /-! ## `polymorph_response` -/
 
 /-- the row `polymorph_response` builds from a kept record of the child -/
